@@ -1,8 +1,8 @@
 /-
   Spec.Bmc — a BYTE-LEVEL reference BMC, written from the command tables of
   IPMI v2.0 (chapters 20 Global, 22 Messaging, 23 LAN, 27 Watchdog, 28 Chassis, 29 Event,
-  35 Sensor), PICMG 3.0 (chapter 3: FRU control, LED, fan, power, port/E-Keying) and HPM.1
-  (status queries).  It does NOT use the library's message layouts: requests are parsed and
+  35 Sensor), PICMG 3.0 (chapter 3: FRU control, LED, fan - fan trays of both command-set revisions -, power,
+  port/E-Keying) and HPM.1 (status queries, Get Component Properties).  It does NOT use the library's message layouts: requests are parsed and
   responses are formatted here with plain byte arithmetic, bit `k` of byte `x` being
   `x / 2^k % 2`.
 
